@@ -488,5 +488,6 @@ func init() {
 		c15StalledWrite(r)
 		c15SlowHandshake(r)
 		c15DuringShutdown(r)
+		c15HandshakeStall(r)
 	}
 }
